@@ -610,9 +610,24 @@ impl<'a> DnsRun<'a> {
                 json!({"ev":"lookup","n":n,"res":addr_offset(a)})
             }
             "reverse" => {
-                let k = o["k"].as_u64().unwrap();
-                let r = self.sim.reverse_lookup(offset_addr(k, self.v6));
-                json!({"ev":"reverse","k":k,"res":r.map(|s| dns_name_id(&s)).unwrap_or(0)})
+                let k = o["k"].as_i64().unwrap();
+                // k > 0: offset inside the simulated subnet; k < 0: an address the DNS never hands out
+                // (-1 loopback, -2 outside the subnet, -3 the other address family, -4 the subnet's
+                // network address with the same low bits as a registered name in the next /16 block)
+                let low = (variant % 3 + 1) as u8;
+                let a: IpAddr = match (k, self.v6) {
+                    (k, v6) if k > 0 => offset_addr(k as u64, v6),
+                    (-1, false) => IpAddr::V4(Ipv4Addr::LOCALHOST),
+                    (-1, true) => IpAddr::V6(Ipv6Addr::LOCALHOST),
+                    (-2, false) => IpAddr::V4(Ipv4Addr::new(10, 0, 0, low)),
+                    (-2, true) => IpAddr::V6(Ipv6Addr::new(0xfd00, 0, 0, 0, 0, 0, 0, low as u16)),
+                    (-3, false) => IpAddr::V6(Ipv6Addr::new(0xfe80, 0, 0, 0, 0, 0, 0, low as u16)),
+                    (-3, true) => IpAddr::V4(Ipv4Addr::new(192, 168, 0, low)),
+                    (_, false) => IpAddr::V4(Ipv4Addr::new(192, 169, 0, low)),
+                    (_, true) => IpAddr::V6(Ipv6Addr::new(0xfe80, 0, 0, 1, 0, 0, 0, low as u16)),
+                };
+                let r = self.sim.reverse_lookup(a);
+                json!({"ev":"reverse","k":k,"res":r.map(|s| dns_name_id(&s)).unwrap_or(0),"addr":a.to_string()})
             }
             "literal" => {
                 let k = o["k"].as_u64().unwrap();
@@ -712,6 +727,10 @@ fn main_ports_replay(args: &[String]) {
     let mut divs: Vec<Value> = Vec::new();
     let mut tdivs: Vec<Value> = Vec::new();
     let mut samples: Vec<Value> = Vec::new();
+    // every result-divergent behaviour's trace, concatenated (each starts with a reset event that
+    // carries the behaviour's line number): the PropSpec judges all of them in one TLC run
+    let mut divs_all: Vec<Value> = Vec::new();
+    let mut divs_all_lines: Vec<Value> = Vec::new();
     for (k, line) in text.lines().enumerate() {
         if line.trim().is_empty() {
             continue;
@@ -734,9 +753,21 @@ fn main_ports_replay(args: &[String]) {
         if let (true, Some(dir)) = (keep, &traces) {
             util::write_ndjson(&format!("{dir}/all-{k}.ndjson"), &tr);
         }
+        if rd.is_some() && divs_all.len() + tr.len() <= 150_000 {
+            let mut first = true;
+            for e in &tr {
+                let mut e = e.clone();
+                if first {
+                    e["line"] = json!(k);
+                    first = false;
+                }
+                divs_all.push(e);
+            }
+            divs_all_lines.push(json!(k));
+        }
         if let Some(mut d) = rd {
             nres += 1;
-            if divs.len() < 25 {
+            if divs.len() < 25 || (d["what"] == "panic" && divs.iter().filter(|x| x["what"] == "panic").count() < 3) {
                 d["line"] = json!(k);
                 d["behaviour"] = json!(beh);
                 if let Some(dir) = &traces {
@@ -754,8 +785,11 @@ fn main_ports_replay(args: &[String]) {
             }
         }
     }
+    if let Some(dir) = &traces {
+        util::write_ndjson(&format!("{dir}/divs-all.ndjson"), &divs_all);
+    }
     let summary = json!({"behaviours": total, "nontrivial": nontrivial, "divergent": ndiv, "result_divergent": nres,
-        "divergences": divs, "table_divergences": tdivs, "samples": samples});
+        "divergences": divs, "table_divergences": tdivs, "samples": samples, "judged_lines": divs_all_lines});
     std::fs::write(&out, serde_json::to_string(&summary).unwrap()).unwrap();
     println!("replayed={total} nontrivial={nontrivial} divergent={ndiv} result_divergent={nres}");
 }
@@ -840,6 +874,19 @@ fn main_ports_random(args: &[String]) {
             rec::emit(d.op(&json!({"a":"reverse","k":n}), n));
             ndns += 2;
         }
+        if dnsfill > 0 {
+            // a host registered by literal address gets no name, and no name's address
+            let lit: IpAddr = if v6 { "fd00::9".parse().unwrap() } else { "10.1.0.9".parse().unwrap() };
+            d.sim.client(lit, async { Ok(()) });
+            let r = d.sim.reverse_lookup(lit);
+            rec::emit(json!({"ev":"reverse","k":-2,"res":r.map(|s| dns_name_id(&s)).unwrap_or(0),"addr":lit.to_string()}));
+            for k in 1..=4i64 {
+                for v in 0..3u64 {
+                    rec::emit(d.op(&json!({"a":"reverse","k":-k}), v));
+                    ndns += 1;
+                }
+            }
+        }
         for i in 0..dnsops {
             let o = match rng.random_range(0..10) {
                 0..=4 => {
@@ -849,7 +896,8 @@ fn main_ports_random(args: &[String]) {
                     }
                     json!({"a":"lookup","n":n})
                 }
-                5 | 6 => json!({"a":"reverse","k":rng.random_range(1..=(registered.len() as u64 + 2))}),
+                5 => json!({"a":"reverse","k":rng.random_range(1..=(registered.len() as i64 + 2))}),
+                6 => json!({"a":"reverse","k":-rng.random_range(1..=4i64)}),
                 7 => json!({"a":"literal","k":rng.random_range(0..500)}),
                 _ => {
                     let pats = ["^alpha", "^beta-1", "a-\\d$", "^(gamma|delta)-", "-7$", ".*", "^nomatch$", "^delta-[0-9]+$"];
@@ -1481,11 +1529,15 @@ fn tcp_do(run: &mut TcpRun<'_>, op: &Value, conn_host: &mut BTreeMap<u64, usize>
         "connect" => {
             let h = op["h"].as_u64().unwrap() as usize;
             conn_host.insert(c, h);
-            let none = op["dk"].as_str() == Some("none");
-            let dst = if none {
-                if run.sh.borrow().v6 { "fd00::99".to_string() } else { "10.99.99.99".to_string() }
-            } else {
-                "srv".to_string()
+            let dk = op["dk"].as_str().unwrap_or("srv");
+            let none = dk != "srv";
+            let v6 = run.sh.borrow().v6;
+            let dst = match (dk, v6) {
+                ("none", true) => "fd00::99".to_string(),
+                ("none", false) => "10.99.99.99".to_string(),
+                ("unspec", true) => "::".to_string(),
+                ("unspec", false) => "0.0.0.0".to_string(),
+                _ => "srv".to_string(),
             };
             run.cmd(h, TCmd::Connect { c, dst, dh: if none { 0 } else { nh as u64 }, p: op["p"].as_u64().unwrap(), lo: false });
             run.step();
@@ -1713,6 +1765,32 @@ fn tcp_replay_one(beh: &[Value], cfg: &TcpCfg) -> (Option<Value>, Option<Value>,
             }
         }
     }
+    if rdiv.is_some() {
+        // connects the code left pending although the behaviour is over (the model had them finished):
+        // poll them a few more steps so that the PropSpec sees whether they hang, succeed or fail
+        let mut pending: BTreeMap<u64, bool> = BTreeMap::new();
+        for e in &run.trace {
+            let c = e["c"].as_u64().unwrap_or(0);
+            match (e["ev"].as_str(), e["res"].as_str()) {
+                (Some("connect"), Some("pending")) => {
+                    pending.insert(c, true);
+                }
+                (Some("poll"), Some(r)) if r != "pending" => {
+                    pending.remove(&c);
+                }
+                (Some("cancel"), _) => {
+                    pending.remove(&c);
+                }
+                _ => {}
+            }
+        }
+        for _ in 0..3 {
+            for c in pending.keys() {
+                run.cmd(*conn_host.get(c).unwrap_or(&1), TCmd::Poll { c: *c });
+            }
+            run.step();
+        }
+    }
     (rdiv, tdiv, std::mem::take(&mut run.trace), has_fault && has_obs)
 }
 
@@ -1733,6 +1811,10 @@ fn main_tcp_replay(args: &[String]) {
     let mut divs: Vec<Value> = Vec::new();
     let mut tdivs: Vec<Value> = Vec::new();
     let mut samples: Vec<Value> = Vec::new();
+    // every result-divergent behaviour's trace, concatenated (each starts with a reset event that
+    // carries the behaviour's line number): the PropSpec judges all of them in one TLC run
+    let mut divs_all: Vec<Value> = Vec::new();
+    let mut divs_all_lines: Vec<Value> = Vec::new();
     rec::with_recorder(|| {
         for (k, line) in text.lines().enumerate() {
             if line.trim().is_empty() {
@@ -1760,9 +1842,21 @@ fn main_tcp_replay(args: &[String]) {
             if let (true, Some(dir)) = (keep, &traces) {
                 util::write_ndjson(&format!("{dir}/all-{k}.ndjson"), &tr);
             }
+            if rd.is_some() && divs_all.len() + tr.len() <= 150_000 {
+                let mut first = true;
+                for e in &tr {
+                    let mut e = e.clone();
+                    if first {
+                        e["line"] = json!(k);
+                        first = false;
+                    }
+                    divs_all.push(e);
+                }
+                divs_all_lines.push(json!(k));
+            }
             if let Some(mut d) = rd {
                 nres += 1;
-                if divs.len() < 25 {
+                if divs.len() < 25 || (d["what"] == "panic" && divs.iter().filter(|x| x["what"] == "panic").count() < 3) {
                     d["line"] = json!(k);
                     d["behaviour"] = json!(beh);
                     if let Some(dir) = &traces {
@@ -1781,8 +1875,11 @@ fn main_tcp_replay(args: &[String]) {
             }
         }
     });
+    if let Some(dir) = &traces {
+        util::write_ndjson(&format!("{dir}/divs-all.ndjson"), &divs_all);
+    }
     let summary = json!({"behaviours": total, "nontrivial": nontrivial, "divergent": ndiv, "result_divergent": nres,
-        "divergences": divs, "table_divergences": tdivs, "samples": samples});
+        "divergences": divs, "table_divergences": tdivs, "samples": samples, "judged_lines": divs_all_lines});
     std::fs::write(&out, serde_json::to_string(&summary).unwrap()).unwrap();
     println!("replayed={total} nontrivial={nontrivial} divergent={ndiv} result_divergent={nres}");
 }
@@ -1927,8 +2024,11 @@ fn main_tcp_random(args: &[String]) {
                         (nh, "srv".to_string(), nh as u64, false)
                     } else if kind < 9 || !conn_mode {
                         (nh, if v6 { "::1".to_string() } else { "127.0.0.1".to_string() }, nh as u64, true)
-                    } else {
+                    } else if rng.random_bool(0.5) {
                         (if nh > 1 { 1 } else { nh }, if v6 { "fd00::99".to_string() } else { "10.99.99.99".to_string() }, 0, false)
+                    } else {
+                        // the unspecified address is nobody's address, also on the listener's own host
+                        (if rng.random_bool(0.7) { nh } else { 1.min(nh) }, if v6 { "::".to_string() } else { "0.0.0.0".to_string() }, 0, false)
                     };
                     let p = want_p;
                     run.cmd(h, TCmd::Connect { c: next, dst, dh, p, lo });
